@@ -115,6 +115,22 @@ def class_programs(seed, n):
             [Print(*[V(nm) for nm in names]), Print(Bin("+", V("mul_res"), I(2)), Bin("+", V("count_once"), Bin("-", V("_i"), I(3))))] + \
             [For("_i", Range(I(0), I(2)), Block([Print(V("_i"), V("count_once"))]))]
         progs.append(Program("cls%d" % i, fns, globs=globs, feats={"family": "class"}))
+    # small programs, one loop with exits each: a wrong rewrite that needs two particular choices in a row (a variant of one pass
+    # met by a later pass) is rare per seed; a small program gets many seeds (see run) and has little else to rewrite
+    for kind in ("for", "while", "loop"):
+        for exits in (("break", "continue"), ("continue", "break"), ("break",), ("continue",)):
+            body = []
+            for j, ex in enumerate(exits):
+                body.append(Expr(If(Bin("==", V("n"), I(7 - 5 * j) if ex == "break" else I(2 + 2 * j)), Block([Break() if ex == "break" else Continue()]))))
+            body += [Expr(Asg(V("sum"), V("n"), "+=")), Print(V("n"))]
+            if kind == "for":
+                loop = [For("n", Range(I(0), I(10)), Block(body))]
+            elif kind == "while":
+                loop = [Let("n", I(-1)), While(Bin("<", V("n"), I(9)), Block([Expr(Asg(V("n"), I(1), "+="))] + body))]
+            else:
+                loop = [Let("n", I(-1)), Loop(Block([Expr(Asg(V("n"), I(1), "+=")), Expr(If(Bin(">", V("n"), I(9)), Block([Break()])))] + body))]
+            progs.append(Program("small_%s_%s" % (kind, "_".join(exits)), {"main": Fn([], Block([Let("sum", I(0))] + loop + [Print(V("sum"))]))},
+                                 feats={"family": "class-small"}))
     # pure arithmetic trees over small values with every operator: what the rewrites print must mean the same
     def tree(d, ty):
         if d == 0 or rnd.random() < 0.25:
@@ -157,7 +173,7 @@ def run(args):
     rep = C.Report("C20")
     thorough = C.tier() == "thorough"
     rnd = random.Random(C.seed())
-    passes = 3 if thorough else 2
+    passes = 3 if thorough else 2          # (the small class programs are always given 3)
     nseeds = 10 if thorough else 3
     rep.cov["rule"] = ("programs of the stated class (syntactic filter over the spec-AST families + programs written for the class: "
                        "side-effect free operands wherever the transformer swaps or duplicates, integer multiplications with literal "
@@ -184,7 +200,10 @@ def run(args):
         # expression alone, and the printer has to get the precedence of what the transformer builds right)
         src, _ = P.render(p, minimal=True)
         ns = nseeds * 4 if p["feats"].get("family", "").startswith("class") else nseeds      # (the programs written for the class get more seeds)
-        treqs.append({"op": "transform", "id": len(treqs), "a": {"src": src, "seeds": [base_seed + k for k in range(ns)], "passes": passes,
+        if p["feats"].get("family") == "class-small":
+            ns = 300 if thorough else 100
+        treqs.append({"op": "transform", "id": len(treqs), "a": {"src": src, "seeds": [base_seed + k for k in range(ns)],
+                                                                   "passes": 3 if p["feats"].get("family") == "class-small" else passes,
                                                                    "singletons": p.get("host") or {}}})
     tres = pool.map(treqs, timeout=60)
     reqs, meta = [], []
